@@ -157,18 +157,33 @@ func checkResponse(tt *testing.T, c Case, info *pbt.Info) error {
 			continue
 		}
 		trailer := http.Header{}
+		foreign := false
 		switch c.Trailers {
 		case "always":
 			if c.Ending == "eof" {
 				trailer = resp.Trailer
 			}
 		case "never":
+		case "foreign-ok":
+			// HTTP trailers claiming success on a protocol whose terminator
+			// lives in the body (gRPC-Web, Connect): they are not the
+			// protocol's end-of-stream marker and must not be taken for it
+			if b.Protocol != "grpc" && c.Ending == "eof" {
+				trailer = http.Header{"Grpc-Status": {"0"}}
+				foreign = true
+			} else if k == n && c.Ending == "eof" {
+				trailer = resp.Trailer
+			}
 		default:
 			if k == n && c.Ending == "eof" {
 				trailer = resp.Trailer
 			}
 		}
 		cut := &refwire.Response{Status: resp.Status, Header: resp.Header, Body: full[:k], Trailer: trailer}
+		if foreign {
+			cut.Trailer = http.Header{} // the reference decides completeness from the protocol's own terminator
+			info.Label("foreign-http-trailers")
+		}
 		dec, derr := refwire.DecodeResponse(b.Protocol, b.Kind, b.ContentType(), cut)
 		complete := derr == nil
 		body := &memnet.ChunkReader{Data: full[:k], EndErr: endErr(c.Ending)}
@@ -209,6 +224,9 @@ func checkResponse(tt *testing.T, c Case, info *pbt.Info) error {
 		switch {
 		case complete && c.Ending == "eof":
 			if dec.Status.Code == 0 {
+				if !succeeded && foreign {
+					continue // whether stray HTTP trailers are tolerated is not part of the property
+				}
 				if !succeeded {
 					return fmt.Errorf("%s: the complete terminator arrived (reference decode OK, %d messages) but the call failed: %v", where, len(dec.Messages), res.Err)
 				}
@@ -478,7 +496,7 @@ func gen(t *rapid.T) Case {
 	}
 	c.Body = bodies.Gen(t, d, sizes)
 	c.Ending = rapid.SampledFrom([]string{"eof", "eof", "unexpected", "opaque", "rst"}).Draw(t, "ending")
-	c.Trailers = rapid.SampledFrom([]string{"natural", "natural", "always", "never"}).Draw(t, "trailers")
+	c.Trailers = rapid.SampledFrom([]string{"natural", "natural", "always", "never", "foreign-ok"}).Draw(t, "trailers")
 	if c.Dir == "hwrite" && len(c.Body.Msgs) == 0 {
 		c.Body.Msgs = []prog.Msg{{N: 3, TLen: 10}}
 		c.Body.Compress = []bool{false}
